@@ -31,7 +31,7 @@ ANCHORS = [
     "acnportal.acnsim.interface:Interface._infrastructure_info",
     "acnportal.algorithms.utils:infrastructure_constraints_feasible",
 ]
-REQUIRED = ["explicit_tolerances_differ_from_network", "explicit_zero_tolerance_on_tolerant_network", "phasor_judged", "linear_judged", "near_boundary_judged", "constraint_free_sim_runs", "history_rejudged",
+REQUIRED = ["integer_row_first_in_mapping", "explicit_tolerances_differ_from_network", "explicit_zero_tolerance_on_tolerant_network", "phasor_judged", "linear_judged", "near_boundary_judged", "constraint_free_sim_runs", "history_rejudged",
             "history_op:remove_not_last", "history_op:update", "history_op:update_rename", "history_op:add",
             "regime:phasor-accept", "regime:phasor-reject", "regime:linear-accept", "regime:linear-reject",
             "regime:T>1", "regime:mixed-sign"]
@@ -77,6 +77,10 @@ def cases(seed, tier):
         D = [[(round(rng.random(), 4) if rng.random() < 0.8 else 0.0) for _ in range(T)] for _ in range(ns)]
         if not any(any(r) for r in D):
             D[0][0] = 1.0
+        if ns >= 2 and rng.random() < 0.35:
+            z = rng.randrange(ns)
+            if any(any(r) for i_, r in enumerate(D) if i_ != z):
+                D[z] = [0.0] * T
         neg = rng.random() < 0.1
         if neg:
             D = [[-x if rng.random() < 0.3 else x for x in r] for r in D]
@@ -179,7 +183,24 @@ def _judge(nd, S, obs, ts=1e-7, omit=False, oseed=0, use_defaults=False, tag=Non
                 del sched[i]
     items = list(sched.items())
     rng.shuffle(items)
-    sched = dict(items)
+    # value types must not matter: rows may be lists of ints, numpy int arrays, tuples, float arrays, in any position;
+    # in particular an all-integer row (e.g. an idle station given as [0, 0, 0]) may come first
+    typed = []
+    for k_, v_ in items:
+        c = rng.random()
+        if all(float(x).is_integer() for x in v_) and c < 0.6:
+            v_ = [int(x) for x in v_] if c < 0.4 else np.array(v_, dtype=int)
+            obs.ev("integer_typed_rows")
+            typed.insert(0, (k_, v_)) if rng.random() < 0.7 else typed.append((k_, v_))
+            continue
+        if c < 0.2:
+            v_ = tuple(v_)
+        elif c < 0.4:
+            v_ = np.array(v_, dtype=float)
+        typed.append((k_, v_))
+    if typed and isinstance(typed[0][1], (list, np.ndarray)) and len(typed) > 1 and all(isinstance(x, (int, np.integer)) for x in typed[0][1]):
+        obs.ev("integer_row_first_in_mapping")
+    sched = dict(typed)
     info = iface.infrastructure_info()
     mixed = any(any(x < 0 for x in row) and any(x > 0 for x in row) for row in A)
     res = {}
